@@ -23,4 +23,5 @@ ASSUMPTIONS = ["CSV/GEFF import with segmentation only when every node's truncat
                "empty tracks are not exported"]
 REQUIRED_CLASSES = {t: ["roundtrip:csv", "roundtrip:csvdisplay", "roundtrip:geff", "roundtrip:internal", "roundtrip_after_edits",
                         "cfg:per_axis_pos", "cfg:3D"] for t in ("quick", "thorough")}
-run_shard, replay, minimise = make(C14Oracle, quick=(320, 12), thorough=(2400, 25), profile="general")
+run_shard, replay, minimise = make(C14Oracle, quick=(320, 12), thorough=(2400, 25), profile="general",
+                                   cfg_kwargs={"allow_stray": True})
